@@ -174,8 +174,31 @@ func addrUses(v ssa.Value, seen map[ssa.Value]bool) (read, write, escape bool) {
 			read, write, escape = read || r2, write || w2, escape || e2
 		case *ssa.DebugRef:
 		case *ssa.Call, *ssa.Go, *ssa.Defer:
-			// address passed as receiver/argument (e.g. &mtx for Lock, atomic methods): neither plain read nor write
+			// address passed as receiver/argument (e.g. &mtx for Lock, atomic methods): neither plain read nor write,
+			// unless the callee is a setter / getter of the library that stores / loads through that parameter
 			escape = true
+			cc := x.(ssa.CallInstruction).Common()
+			if cal := calleeOf(cc); cal != nil && theProgram != nil && theProgram.InScope[cal] && !cc.IsInvoke() {
+				for k, a := range cc.Args {
+					if a != v || k >= len(cal.Params) {
+						continue
+					}
+					if refs := cal.Params[k].Referrers(); refs != nil {
+						for _, pr := range *refs {
+							switch y := pr.(type) {
+							case *ssa.Store:
+								if y.Addr == cal.Params[k] {
+									write = true
+								}
+							case *ssa.UnOp:
+								if y.Op == token.MUL {
+									read = true
+								}
+							}
+						}
+					}
+				}
+			}
 		default:
 			escape = true
 		}
